@@ -177,5 +177,31 @@ def names():
     return t
 
 
+def literals():
+    """fourth tree: literal forms - numerals with leading zeros wherever the grammar has a number (hardcoded values, dummies, lengths,
+    case values, offsets, enum ordinals) and hardcoded strings containing quotes and backslashes.  The XML says WHICH number / WHICH
+    characters; the emitted Python has to say the same."""
+    t = empty_tree()
+    t['']['enums'] += [{'name': 'LitKind', 'type': 'char', 'values': [('A', '01'), ('B', '2')]}]
+    t['']['structs'] += [
+        {'name': 'Lits', 'body': [F('v', 'char', '007'), F(None, 'short', '010'), F('s', 'string', length='03'), A('xs', 'char', length='02'),
+                                  F('k', 'char'), SW('k', CASE('01', F('y', 'char')), CASE('002')),
+                                  L('n', 'char', offset='01'), F('t', 'string', length='n'),
+                                  F('e', 'LitKind'), SW('e', CASE('A', F('z', 'char')), CASE('07', F('u', 'char')))]},
+        {'name': 'Quoted', 'body': [F('q', 'string', 'a"b', length='3'), F('w', 'string', 'a\\nb', length='4'), F(None, 'string', 'x\\"y', length='4'),
+                                    F('p', 'encoded_string', "it's", length='4', padded='true'), F('tail', 'char')]},
+        {'name': 'LitDummy', 'body': [D('char', '01')]},
+        # documentation text (<comment>) becomes docstrings: whatever characters it holds, the emitted module must stay valid Python
+        {'name': 'Documented', 'comment': 'A "quoted" word, a back\\slash, three quotes """ and a trailing quote "',
+         'body': [dict(F('a', 'char'), comment='ends with a backslash \\'), dict(F('b', 'short'), comment='escapes: \\x41 \\N{DASH} \\u00e9 \\1 \\'),
+                  dict(A('cs', 'char', length='2'), comment='"""'), dict(L('n', 'char'), comment="it's <b>bold</b> & more"), dict(F('t', 'string', length='n'), comment='line one\n  line "two"\n""'),
+                  F('k', 'LitKind'), SW('k', dict(CASE('A', F('z', 'char')), comment='case "A" \\'))]},
+    ]
+    t['']['enums'][-1]['comment'] = 'kinds """ of \\things"'
+    t['']['enums'][-1]['value_comments'] = {'A': 'first "', 'B': 'second \\'}
+    t['net/client']['packets'] += [{'family': 'Talk', 'action': 'Init', 'comment': 'packet "doc" \\N', 'body': [F('d', 'Documented')]}]
+    return t
+
+
 def corpus():
-    return [('mini-eo-core', core()), ('mini-eo-features', features()), ('mini-eo-names', names())]
+    return [('mini-eo-core', core()), ('mini-eo-features', features()), ('mini-eo-names', names()), ('mini-eo-literals', literals())]
